@@ -124,9 +124,9 @@ func (d *drv) concCleanG(g int) {
 
 func run(c *eng.Ctx) error {
 	w := trk.NewWorld(nh, np, na, 0)
-	nSeq, nConc, nWin := c.N(110, 1200), c.N(40, 400), c.N(24, 240)
-	forced, hit := 0, 0
-	c.Traces(nSeq+nConc+nWin, func(t int, rng *rand.Rand) {
+	nSeq, nConc, nWin, nLag := c.N(110, 1200), c.N(40, 400), c.N(24, 240), c.N(16, 160)
+	forced, hit, lagged := 0, 0, 0
+	c.Traces(nSeq+nConc+nWin+nLag, func(t int, rng *rand.Rand) {
 		ttl := ttls[rng.Intn(len(ttls))]
 		clk := trk.NewGateClock(w.Base)
 		s := peerstore.NewLocalStore(peerstore.LocalConfig{TTL: time.Duration(ttl) * time.Second}, clk)
@@ -139,13 +139,20 @@ func run(c *eng.Ctx) error {
 		case t < nSeq+nConc:
 			c.W.Reset(t, map[string]any{"ttl": ttl, "mode": "conc"})
 			d.concurrent()
-		default:
+		case t < nSeq+nConc+nWin:
 			c.W.Reset(t, map[string]any{"ttl": ttl, "mode": "window"})
 			f, h := d.window(ttl)
 			forced += f
 			hit += h
+		default:
+			c.W.Reset(t, map[string]any{"ttl": ttl, "mode": "lag"})
+			lagged += d.lag(ttl)
 		}
 	})
+	c.Stats["lagged_announcers"] = lagged
+	if c.Only < 0 && nLag > 0 && lagged < nLag {
+		return fmt.Errorf("dead driver: only %d announcers were parked at their clock read in %d lag histories", lagged, nLag)
+	}
 	c.Stats["windows_forced"] = forced
 	c.Stats["windows_hit"] = hit
 	if c.Only < 0 && forced > 0 && hit*2 < forced {
@@ -318,5 +325,65 @@ func (d *drv) window(ttl int) (forced, hit int) {
 	}
 	d.seqCleanE()
 	d.seqGet(0, 50)
+	return
+}
+
+// lag: an announcer is slow between reading the clock and the rest of its call (parked inside the clock dependency,
+// answered with the time at which it arrived); meanwhile the clock moves and a second announcement is made.  Whatever the
+// store does, the history must be linearizable: afterwards, at an instant at which the first announcement has expired and
+// the second has not, cleanup passes must keep the second.
+func (d *drv) lag(ttl int) (parkedN int) {
+	rng := d.rng
+	perm := rng.Perm(np)
+	for i := 0; i < 1+rng.Intn(3); i++ {
+		d.seqUpdate(upd{0, perm[i], rng.Intn(na), false})
+		if rng.Intn(2) == 0 {
+			d.seqTick(1)
+		}
+	}
+	for r := 0; r < 1+rng.Intn(2); r++ {
+		u1 := upd{0, perm[rng.Intn(np)], rng.Intn(na), rng.Intn(3) == 0}
+		u2 := upd{0, perm[rng.Intn(np)], rng.Intn(na), rng.Intn(3) == 0}
+		if rng.Intn(3) == 0 {
+			u2.p = u1.p // the same peer announces twice
+		}
+		reached, hold := d.clk.ArmStale(trk.KUpdate)
+		var wg sync.WaitGroup
+		wg.Add(1)
+		go func() { defer wg.Done(); d.concUpdate(1, u1) }()
+		parked := false
+		select {
+		case <-reached:
+			parked = true
+		case <-time.After(2 * time.Second):
+		}
+		if parked {
+			parkedN++
+			dt := 1 + rng.Intn(2)
+			d.clk.Add(time.Duration(dt) * time.Second)
+			d.c.W.Ev("TickBusy", "g", 0, "d", dt)
+			done2 := make(chan struct{})
+			wg.Add(1)
+			go func() { defer wg.Done(); d.concUpdate(2, u2); close(done2) }()
+			select { // an announcer that holds the group lock while it reads the clock keeps the second one waiting
+			case <-done2:
+			case <-time.After(30 * time.Millisecond):
+			}
+		}
+		close(hold)
+		wg.Wait()
+		d.clk.Disarm()
+		d.snap()
+		d.seqTick(ttl) // the parked announcement has expired by now, the second one has not
+		if rng.Intn(2) == 0 {
+			d.seqCleanG()
+			d.seqCleanE()
+		} else {
+			d.seqCleanE()
+			d.seqCleanG()
+		}
+		d.seqGet(0, 50)
+		d.seqUpdate(upd{0, perm[rng.Intn(np)], rng.Intn(na), false})
+	}
 	return
 }
